@@ -88,9 +88,12 @@ CLS = {"vsix": 2, "appmanifest": 1, "cosign": 3}
 def run(ctx, replay=None):
     st = ctx.prepare(["C10_gen"], ["C10"], "C10.Run")
     model_ok = st["model_ok"]
-    anchors = ["lib/pkcs9", "lib/pkcs9/tsclient", "lib/pkcs9/timestampcache", "lib/pkcs9/ratelimit", "internal/signinit",
+    # exact fingerprint keys of the hand-modelled functions (gen_c10.go)
+    anchors = ["lib/pkcs9:", "lib/pkcs9/tsclient:", "lib/pkcs9/timestampcache:", "lib/pkcs9/ratelimit:",
+               "internal/signinit:.GetTimestamper", "internal/signinit:namedTimestamper.Timestamp",
                "lib/pkcs7:Signature.VerifyChain", "lib/pkcs7:SignedData.Verify", "lib/pkcs7:SignerInfo.Verify",
-               "lib/appmanifest", "signers/cosign", "signers/vsix"]
+               "lib/appmanifest:SignedManifest.AddTimestamp", "lib/appmanifest:.VerifyTimestamp",
+               "signers/cosign:.attachTimestamp", "signers/vsix:.checkTimestamp"]
     if not st["harness_ok"]:
         return ctx.finish("proof", ctx.proof_coverage([], anchors), [])
     pending_hits = {}
